@@ -246,7 +246,7 @@ def drive_hist(case):
     except Exception as exc:  # noqa: BLE001
         dot = {"r": "err", "edges": [], "edges2": [], "nodes": [], "e": type(exc).__name__}
     return {"id": case["id"], "k": "hist", "init": case["init"], "ev": events, "dot": dot,
-            "pred": case.get("pred", "-"), "n": ncalls, "alias": int(alias)}
+            "pred": case.get("pred", "-"), "n": ncalls, "alias": int(alias), "g": case.get("g", "")}
 
 
 def drive_rw(case):
@@ -323,6 +323,18 @@ HEAP_CONTROLS = [
     ("C20_Heap", "C20_Heap_bug_FuseIdsInPlace_value", "HInv_Value"),
     ("C20_Heap", "C20_Heap_blind_CondInPlace", ""),      # "" = must be clean
 ]
+# the kinds of constants: a memoising renamer that answers a later expression with the rewritten
+# form of an earlier ==-equal look-alike (C20_Algo.DisImplCachedResult) must be rejected by the
+# strict expression clauses on the inputs of mode K; clauses that compare with Python's ==
+# (DisClauseLoose) must accept it on EVERY input of mode K although it always changes a kind
+KIND_CONTROLS = [
+    ("C20_Gen", "C20_Gen_bug_CachedMapper", "Ctl_CachedRefines"),
+    ("C20_Gen", "C20_Gen_blind_LooseEq", ""),
+]
+BLIND_TEXT = {
+    "C20_Heap_blind_CondInPlace": "in-place update invisible to the output clauses without aliasing",
+    "C20_Gen_blind_LooseEq": "a changed constant kind is invisible to clauses that compare with Python's ==",
+}
 
 
 def run_models(tier):
@@ -341,7 +353,7 @@ def run_models(tier):
     chains = [[("C20_Model", f"C20_Model_{tier}_fuse", None)],
               [("C20_Model", f"C20_Model_{tier}_daf", None)],
               NEG_CONTROLS,
-              [("C20_Heap", f"C20_Heap_{tier}", None)] + HEAP_CONTROLS]
+              [("C20_Heap", f"C20_Heap_{tier}", None)] + HEAP_CONTROLS + KIND_CONTROLS]
     with cf.ThreadPoolExecutor(max_workers=len(chains)) as ex:
         for part in ex.map(chain, chains):
             for cfg, expect, r in part:
@@ -358,8 +370,8 @@ def check_models(models, out):
             out.extra.setdefault("model_runs", {})[cfg] = {
                 "states": r.distinct, "transitions": r.generated, "wall_s": round(r.wall, 1)}
         elif expect == "":
-            kit.require_clean(r, f"{cfg}: in-place update invisible to the output clauses without aliasing")
-            controls[cfg] = "passes as required (blind spot of output-only observation)"
+            kit.require_clean(r, f"{cfg}: {BLIND_TEXT.get(cfg, 'blind-spot control')}")
+            controls[cfg] = f"passes as required (blind spot: {BLIND_TEXT.get(cfg, '')})"
         else:
             if expect not in r.invariant_violated:
                 raise kit.MachineryError(
@@ -537,6 +549,7 @@ def run(tier, seed, out):
             case["ops"] = [[e["op"], e["side"], e["X"], e["flt"]] for e in r["ev"]]
         out.note_case(case, nontrivial=nontrivial)
     out.extra["cases_by_kind"] = kinds
+    out.extra["lookalike_histories_mode_K"] = sum(1 for r in recs if r.get("g") == "K")
     evs = [e for r in recs if r["k"] == "hist" for e in r["ev"]]
     out.extra["events"] = {
         "total": len(evs),
@@ -553,7 +566,11 @@ def run(tier, seed, out):
                 "repeated fusion / disambiguate-and-fuse over 4 base streams, (R) statements "
                 "lhs x rhs x cond, (G) every labelled DAG with <= 5 nodes, (L) chains of 6-8 nodes with "
                 "shortcut edges in 3 list orders, (P) assignments with one identifier per position x "
-                "filters admitting any subset, in histories whose operands share statement objects; "
+                "filters admitting any subset, in histories whose operands share statement objects, "
+                "(K) second streams holding in two TLC-chosen places (lhs index / rhs / condition of "
+                "either statement, or inside one expression) two expressions that are ==-equal and "
+                "differ only in the kind of a nested constant (2/2.0, 1/True/1.0), with and without "
+                "identifier clashes; expressions are judged as trees that carry every constant's kind; "
                 "H histories run twice: base streams built once (objects shared between uses) and "
                 "rebuilt per use; after every call the two operand lists are read again and judged "
                 "against what was handed in (frame); the thorough tier adds seeded -simulate histories of "
